@@ -124,6 +124,24 @@ import %(mod)s as _h
 from crosshair.tracers import NoTracing as _NoTracing
 %(consts)s
 STATS = {"paths": 0, "ok": 0, "samples": []}
+_REPO_MODULES = ["trees.trees", "trees.misc", "trees.grammarconst", "trees.grammaranalysis", "trees.transformconst",
+                 "trees.treeanalysis", "trees.treeinput", "trees.treeoutput", "trees.grammarinput", "trees.grammaroutput",
+                 "trees.transitionoutput", "trees.transform", "trees.grammar", "trees.transitions"]
+
+
+def _fresh_state():
+    """CrossHair re-executes every path in this one process.  So that state which the code under test keeps between
+    calls (function attributes, mutable default arguments, module-level caches) cannot leak from one path into the
+    next -- where it could hide a history dependence as well as fake one -- the repository's modules are re-executed
+    from their source files before every path; each path therefore starts from the state of a freshly started process.
+    (The harness re-installs its stubs at the start of a path.)"""
+    import importlib
+    import sys
+    with _NoTracing():
+        for name in _REPO_MODULES:
+            mod = sys.modules.get(name)
+            if mod is not None:
+                importlib.reload(mod)
 
 def _sample(args):
     with _NoTracing():
@@ -135,6 +153,7 @@ def cond(%(sig)s) -> bool:
 %(prelines)s    post: _
     """
     STATS["paths"] += 1
+    _fresh_state()
     try:
         r = _h.%(func)s(%(call)s)
     except Exception:
@@ -154,6 +173,7 @@ def reach(%(sig)s) -> bool:
     """
 %(prelines)s    post: False
     """
+    _fresh_state()
     _h.%(func)s(%(call)s)
     return True
 ''' % dict(mod=mod, func=func, sig=sig, prelines=prelines, consts=consts,
